@@ -98,9 +98,9 @@ theorem canonRest_congr (hn : ∀ a, p a = true → A.node a = B.node a) :
 end
 
 mutual
-theorem rendersSimple_congr (tight : Bool) (ht : ∀ a, p a = true → A.txt a = B.txt a) :
-    ∀ (sk : Sk α) (t : Input), allAtoms p sk = true → RendersSimple A tight sk t →
-      RendersSimple B tight sk t
+theorem rendersSimple_congr (env : PEnv) (tight : Bool) (ht : ∀ a, p a = true → A.txt a = B.txt a) :
+    ∀ (sk : Sk α) (t : Input), allAtoms p sk = true → RendersSimple env A tight sk t →
+      RendersSimple env B tight sk t
   | .atom a, _, h, hr => by
     cases hr
     rw [ht a (by simpa [allAtoms] using h)]
@@ -108,40 +108,40 @@ theorem rendersSimple_congr (tight : Bool) (ht : ∀ a, p a = true → A.txt a =
   | .not s, _, h, hr => by
     simp only [allAtoms] at h
     cases hr with
-    | not al ws hal hws hx => exact .not al ws hal hws (rendersSimple_congr tight ht s _ h hx)
+    | not al ws hal hws hg hx => exact .not al ws hal hws hg (rendersSimple_congr env tight ht s _ h hx)
   | .paren s, _, h, hr => by
     simp only [allAtoms] at h
     cases hr with
-    | paren ws₁ ws₂ h1 h2 hx => exact .paren ws₁ ws₂ h1 h2 (renders_congr tight ht s _ h hx)
+    | paren ws₁ ws₂ h1 h2 hx => exact .paren ws₁ ws₂ h1 h2 (renders_congr env tight ht s _ h hx)
   | .chain _ _, _, _, hr => by cases hr
-theorem renders_congr (tight : Bool) (ht : ∀ a, p a = true → A.txt a = B.txt a) :
-    ∀ (sk : Sk α) (t : Input), allAtoms p sk = true → Renders A tight sk t →
-      Renders B tight sk t
+theorem renders_congr (env : PEnv) (tight : Bool) (ht : ∀ a, p a = true → A.txt a = B.txt a) :
+    ∀ (sk : Sk α) (t : Input), allAtoms p sk = true → Renders env A tight sk t →
+      Renders env B tight sk t
   | .atom a, _, h, hr => by
     cases hr with
-    | simple hs => exact .simple (rendersSimple_congr tight ht (.atom a) _ h hs)
+    | simple hs => exact .simple (rendersSimple_congr env tight ht (.atom a) _ h hs)
   | .not s, _, h, hr => by
     cases hr with
-    | simple hs => exact .simple (rendersSimple_congr tight ht (.not s) _ h hs)
+    | simple hs => exact .simple (rendersSimple_congr env tight ht (.not s) _ h hs)
   | .paren s, _, h, hr => by
     cases hr with
-    | simple hs => exact .simple (rendersSimple_congr tight ht (.paren s) _ h hs)
+    | simple hs => exact .simple (rendersSimple_congr env tight ht (.paren s) _ h hs)
   | .chain f r, _, h, hr => by
     simp only [allAtoms, Bool.and_eq_true] at h
     cases hr with
     | simple hs => cases hs
     | chain hf htl =>
-      exact .chain (rendersSimple_congr tight ht f _ h.1 hf) (rendersTail_congr tight ht r _ _ h.2 htl)
-theorem rendersTail_congr (tight : Bool) (ht : ∀ a, p a = true → A.txt a = B.txt a) :
+      exact .chain (rendersSimple_congr env tight ht f _ h.1 hf) (rendersTail_congr env tight ht r _ _ h.2 htl)
+theorem rendersTail_congr (env : PEnv) (tight : Bool) (ht : ∀ a, p a = true → A.txt a = B.txt a) :
     ∀ (r : List (LogicalOp × Sk α)) (b : Bool) (u : Input), allAtomsRest p r = true →
-      RendersTail A tight b r u → RendersTail B tight b r u
+      RendersTail env A tight b r u → RendersTail env B tight b r u
   | [], _, _, _, hr => by cases hr; exact .nil _
   | (o, s) :: r, _, _, h, hr => by
     simp only [allAtomsRest, Bool.and_eq_true] at h
     cases hr with
     | cons ws₁ al ws₂ h1 hal h2 hsep hs htl =>
-      exact .cons ws₁ al ws₂ h1 hal h2 hsep (rendersSimple_congr tight ht s _ h.1 hs)
-        (rendersTail_congr tight ht r _ _ h.2 htl)
+      exact .cons ws₁ al ws₂ h1 hal h2 hsep (rendersSimple_congr env tight ht s _ h.1 hs)
+        (rendersTail_congr env tight ht r _ _ h.2 htl)
 end
 
 end congr
@@ -149,13 +149,13 @@ end congr
 /-- **`parse_render_logical` relativised to the atoms of the skeleton** -/
 theorem logical_on (env : PEnv) (A : Atoms α) (tight : Bool) (p : α → Bool)
     (hA : ∀ a, p a = true → GoodAtom env A tight a) (sk : Sk α) (hp : allAtoms p sk = true)
-    (s : Input) (n : Nat) (hr : Renders A tight sk s) (hn : depth sk ≤ n)
+    (s : Input) (n : Nat) (hr : Renders env A tight sk s) (hn : depth sk ≤ n)
     (rest : Input) (hrest : Admissible tight sk rest) :
     (level env n).logical (s ++ rest) = .ok ({ node := canon A sk, ty := .bool }, rest) := by
   have hd := firstAtom_all p sk hp
   have hA' := totalise_good (d := firstAtom sk) hA hd
-  have hr' : Renders (totalise A p (firstAtom sk)) tight sk s :=
-    renders_congr tight (fun a h => (totalise_txt A _ h).symm) sk s hp hr
+  have hr' : Renders env (totalise A p (firstAtom sk)) tight sk s :=
+    renders_congr env tight (fun a h => (totalise_txt A _ h).symm) sk s hp hr
   have hc : canon (totalise A p (firstAtom sk)) sk = canon A sk :=
     canon_congr (fun a h => totalise_node A _ h) sk hp
   rw [level_logical, ← hc]
@@ -164,7 +164,7 @@ theorem logical_on (env : PEnv) (A : Atoms α) (tight : Bool) (p : α → Bool)
 /-- whole filters: `FilterParser::parse` -/
 theorem filter_on (env : PEnv) (A : Atoms α) (tight : Bool) (p : α → Bool)
     (hA : ∀ a, p a = true → GoodAtom env A tight a) (sk : Sk α) (hp : allAtoms p sk = true)
-    (s : Input) (hr : Renders A tight sk s) (hd : depth sk ≤ env.st.maxDepth)
+    (s : Input) (hr : Renders env A tight sk s) (hd : depth sk ≤ env.st.maxDepth)
     (htrim : trim s = s) : parseFilter env s = .ok (canon A sk) := by
   have h := logical_on env A tight p hA sk hp s env.st.maxDepth hr hd [] ⟨fun _ => rfl, rfl⟩
   rw [List.append_nil] at h
